@@ -217,7 +217,7 @@ class C07(Prop):
                     missing = next(t for t in want if got.count(t) < want.count(t))
                     idx = next(n for n, (v, t, _, _) in enumerate(seq) if t == missing and v == "VALID")
                     before = seq[idx - 1][3] if idx else "start"
-                    mech = f"lost-after:{before}"
+                    mech = "repeat-lost" if seq[idx][3] == "repeat" or got.count(missing) else f"lost-after:{before}"
                 acc.violation(mech, f"port {p} ({nports} ports, callback schedule {sched}): delivered {len(got)} valid-tag deliveries, sent {len(want)} valid broadcasts",
                               {"port": p, "history": history_desc[str(p)], "want": want, "got": got,
                                "events": [str(e)[:160] for e in log.events if e[0] != 'device'][:6]})
